@@ -10,7 +10,11 @@ ASSUMPTIONS = [
     "are the only hash-ordered structure the stub pipeline uses (dicts iterate in insertion order, which the row permutation covers)",
     "rows: 2 (quick) / 3 (thorough) traces of two fixture functions with tape-decoded argument values and return types, an arbitrary permutation and "
     "(thorough) one duplication of the row list; k in {0, 3}; NoOpRewriter and DEFAULT_REWRITER",
-    "dedicated large-union case: six classes over a diamond X*(P, Q) / Y*(Q, P), one trace each, every rotation/reversal of the rows and free set order",
+    "dedicated large-union cases (more members than RewriteLargeUnion's limit, one trace each, every rotation/reversal of the rows and free set order): "
+    "six classes over a diamond X*(P, Q) / Y*(Q, P); six homogeneous tuple shapes over one and over two element types; dict unions with an empty dict; "
+    "plain classes with and without a common base",
+    "store level: three calls of a generator / function logged through the real tracer into a real in-memory SQLite store in two different orders, with "
+    "one call duplicated and a different split into batches; the stubs generated from both stores must agree",
     "oracle: the two stubs are textually equal, or they evaluate (harness/stubeval.py) to the same functions, imports, generated classes and "
     "annotations up to the order of union members",
     "outside the claim: actually varying PYTHONHASHSEED across interpreter processes (subsumed by the symbolic set order under the stated "
@@ -20,7 +24,7 @@ ASSUMPTIONS = [
 
 def run(tier):
     q = tier == "quick"
-    specs = [("order2q", 240, 5), ("diamond1", 120, 3)] if q else [("order2", 2400, 6), ("order3", 3000, 6), ("diamond", 600, 4)]
+    specs = [("order2q", 240, 5), ("diamond1", 120, 3), ("store_order2", 240, 6)] if q else [("order2", 2400, 6), ("order3", 3000, 6), ("diamond", 900, 4), ("store_order", 2400, 6)]
     jobs = [Job("harness.c14", n, H.shards(n, pre), b, bounds=dict(harness=n), rule="one path = (traces, k, rewriter, row permutation/duplication, set iteration orders)",
                 describe=H.describe) for n, b, pre in specs]
     return run_check(PID, tier, jobs, H.FUNCTIONS, ASSUMPTIONS)
